@@ -111,6 +111,12 @@ func (Segment).Remove
     // C11 (D10): ... and removed: a missing index file is not an error, the log file goes
     ensures[derive_noindex] !old(fsExists)[s.Index] && old(fsExists)[s.Log] && s.Index != s.Log ==> !is(err, fs.ErrNotExist) && (err == nil ==> !fsExists[s.Log])
 
+// C13: one segment counts as one; its messages are the items of its index file; its size is log file plus index file
+func (Segment).Stat
+    flags noframe only_stat
+    ensures[stat_one] err == nil ==> ret0.Segments == 1 && ret0.Messages == idxCount(s.Index, params) && ret0.Size == fsSize[s.Log] + fsSize[s.Index]
+    ensures[stat_missing] is(err, fs.ErrNotExist) ==> !fsExists[s.Log] || !fsExists[s.Index]
+
 // C07: Check accepts exactly the clean segments. Over the record abstraction of the log file as it is on entry
 // (f): a file that does not parse completely is rejected; for a file that does, the stored index is compared
 // with the derived one, item by item. Its frame (it only reads) is ASSUMED, not checked (noframe).
